@@ -577,6 +577,9 @@ class Conv:
     def fork(self):
         c = Conv(self.tab, dict(self.env), self.canon, self.on_call,
                  self.erase_broadcast)
+        c._bd = getattr(self, '_bd', 0)
+        if getattr(self, 'forward_attrs', False):
+            c.forward_attrs = True
         return c
 
     def parse(self, text):
@@ -693,8 +696,44 @@ class Conv:
             v = self.expr(n.value)
             self.env[n.target.id] = v
             return v
-        # comprehensions, lambdas, dicts ...: opaque, keyed by normalised text
+        if isinstance(n, (ast.ListComp, ast.GeneratorExp, ast.SetComp)):
+            r = self._comp(n)
+            if r is not None:
+                return r
+        # lambdas, dict comprehensions ...: opaque, keyed by normalised text
         return t.atom('opaque', (ast.unparse(n),), node=n)
+
+    def _comp(self, n):
+        """comprehension -> comp(elt, iter_1, (ifs_1), ...) with the bound variables named by binding depth,
+        so that the names chosen for them and the spelling of the expressions inside do not matter"""
+        t = self.tab
+        c = self.fork()
+        k = getattr(self, '_bd', 0)
+        parts = []
+        shapes = []
+
+        def shape(x):
+            nonlocal k
+            if isinstance(x, ast.Name):
+                c.env[x.id] = t.name('%%b%d' % k)
+                k += 1
+                return '_'
+            if isinstance(x, (ast.Tuple, ast.List)):
+                return '(' + ','.join(shape(e) for e in x.elts) + ')'
+            raise ValueError
+        for g in n.generators:
+            if g.is_async:
+                return None
+            it = c.expr(g.iter)
+            try:
+                shapes.append(shape(g.target))
+            except ValueError:
+                return None
+            c._bd = k
+            parts.append(it)
+            parts.append(t.atom('tuple', tuple(c.expr(x) for x in g.ifs)))
+        c._bd = k
+        return t.atom('comp', (c.expr(n.elt),) + tuple(parts), extra=(type(n).__name__,) + tuple(shapes), node=n)
 
     def power(self, a, b):
         t = self.tab
